@@ -208,6 +208,7 @@ class Evaluator(object):
         self.files = []                     # FileV objects created by open()
         self.last_env = None                # final environment of the outermost function evaluated last
         self.ext_summaries = {}             # external callable name -> function(ev, args, kwargs, node)
+        self.fold_const_types = False       # type(<numeric constant>) folds to int / float
         self.rat_type_is_float = False      # type(<symbolic number>) folds to float (used where inputs are documented floats)
         self._assigned_cache = {}
 
@@ -1245,6 +1246,10 @@ class Evaluator(object):
             if short == 'str' and len(a) == 1:
                 if isinstance(a[0], Str):
                     return a[0]
+                if isinstance(a[0], Rat) and a[0].as_fraction() is not None:
+                    fr = a[0].as_fraction()
+                    # ints print exactly; other constants are shown as python floats would print them
+                    return Str(str(int(fr)) if fr.denominator == 1 and not getattr(self, 'const_as_float', False) else repr(float(fr)))
                 return alg.opaque('str', (argkey(a[0]),))
             if short == 'type' and len(a) == 1:
                 if isinstance(a[0], Obj) and a[0].cls is not None:
@@ -1257,6 +1262,8 @@ class Evaluator(object):
                     return Ref(Ext('builtins.bool'))
                 if isinstance(a[0], Mat):
                     return Ref(Ext('numpy.ndarray'))
+                if isinstance(a[0], Rat) and self.fold_const_types and a[0].as_fraction() is not None:
+                    return Ref(Ext('builtins.int' if a[0].as_fraction().denominator == 1 else 'builtins.float'))
                 if isinstance(a[0], Rat) and self.rat_type_is_float:
                     return Ref(Ext('builtins.float'))
                 return alg.opaque('type', (argkey(a[0]),))
@@ -1279,6 +1286,9 @@ class Evaluator(object):
                         r = self.cand(r, self.truth(x)) if short == 'all' else self.cor(r, self.truth(x))
                     return r
                 if short == 'divmod' and len(a) == 2 and num:
+                    fa, fb = a[0].as_fraction(), a[1].as_fraction()
+                    if fa is not None and fb is not None and fb != 0:
+                        return Tup([C(fa // fb), C(fa % fb)])
                     return Tup([alg.opaque('floordiv', (a[0], a[1])), alg.opaque('mod', (a[0], a[1]))])
                 if short == 'zip' and all(isinstance(x, Tup) for x in a):
                     return Tup([Tup(list(t)) for t in zip(*[x.items for x in a])])
@@ -1346,6 +1356,8 @@ class Evaluator(object):
                 return Str(getattr(obj.s, attr)())
             if attr == 'startswith' and len(args) == 1 and isinstance(args[0], Str):
                 return Bool(obj.s.startswith(args[0].s))
+        if isinstance(obj, Rat) and attr in ('__neg__', '__abs__', '__float__', '__pos__') and not args:
+            return {'__neg__': lambda: -obj, '__abs__': lambda: alg.fabs(obj), '__float__': lambda: obj, '__pos__': lambda: obj}[attr]()
         if isinstance(obj, DictV) and attr == 'get' and args:
             k = _const_key(args[0])
             if k is not None:
